@@ -350,6 +350,7 @@ func TestCheck(t *testing.T) {
 		"the other-domain/* classes sign the object's own root with genuine shares under a domain that is not the object's own (previous / next fork version of the schedule, another domain type, the schedule's domain at another epoch: attestation source epoch or slot epoch, own epoch +-1, the other side of the nearest fork activation, for exits and builder registrations the plain schedule domain; all partials, or 1..len-1 of them in the mixed class; other-domain-type is drawn with triple weight and walks the other domain types round-robin per object kind); "+
 		"30%% of the valid calls are followed by a replay that keeps one validator's first partial byte-identical and re-signs another of its partials with an unrelated key (must be refused although the same head was verified a moment before); "+
 		"35%% of all calls (valid and corrupted alike) run under a per-call beacon-node fault plan carried in the context: 1-2 rules over the verifier's lookups (Spec, Domain, GenesisDomain, Genesis, ForkSchedule, SlotsPerEpoch, or 'k-th lookup of the call whichever it is'), each failing with an error or a context-deadline error always / only the k-th time / from the k-th time on; "+
+		"AGED PROCESS epilogue: the process verifies against 4600 (thorough: 20000) fresh public keys in a fixed order, then every later key's signature is tried under 10 (40) of the earliest keys and under one validator key per cluster; an accepted pair is replayed as an Aggregate call for that validator with partials made by shares of the other key; "+
 		"non-trivial = the call carried at least one validator with >= t partials or a corruption; distinct = hash(kind, n, class, labels, corrupted position, validators)",
 		len(kinds), maxN, len(mustErrorClasses), len(crossValidatorClasses), len(universalOnlyClasses)))
 	r.Assume("herumi BLS (tbls.Verify / tbls.Sign) is correct (C08); the harness verifies published signatures with tbls.Verify directly against a signing root it computes itself (object hash-tree-root via go-eth2-client types, domain from the mock's raw spec / genesis / fork schedule)")
@@ -370,6 +371,7 @@ func TestCheck(t *testing.T) {
 	r.Require("calls_cross_validator_rejected", 500)
 	r.Require("shared_object_valid_calls_published", 150)
 	r.Require("concurrent_first_use_trials", 50)
+	r.Require("aged_process_foreign_signature_probes", 40000)
 	r.Require("other_domain_attestation_sets_under_source_epoch_domain", 20)
 	r.Require("valid_published_attestations_source_and_target_in_different_forks", 50)
 
@@ -472,6 +474,12 @@ func TestCheck(t *testing.T) {
 		env := clusters[(c.Idx/len(kinds))%len(clusters)]
 		runCase(ctx, c, ch, mon, env, k, &validCursor[env.n], &dtCursors[c.Idx%len(kinds)])
 	})
+
+	if !r.Replaying() {
+		runAgedProcess(ctx, r, ch, mon, clusters, func(t int) (*sigagg.Aggregator, error) {
+			return sigagg.New(t, sigagg.NewVerifier(faultClient{Client: bnClient}))
+		})
+	}
 
 	// every threshold subset of the small clusters used by a valid call?
 	if !r.Replaying() {
